@@ -20,7 +20,7 @@ func setM(op *plan.Op, s string) { op.M, op.MX = plan.SetStr(s) }
 func setP(op *plan.Op, s string) { op.P, op.PX = plan.SetStr(s) }
 
 // sentenceKinds: how a test sentence is derived from a valid one.
-var sentenceKinds = []string{"valid", "badsum", "unknown", "short", "long", "nfc", "altsep", "foreign", "empty", "badutf8"}
+var sentenceKinds = []string{"valid", "badsum", "unknown", "short", "long", "nfc", "altsep", "foreign", "empty", "badutf8", "typo", "typo-last"}
 
 // MakeSentence builds a sentence of the given kind for (entropy, lang) with the reference model.
 func MakeSentence(rng *plan.Rand, kind string, ent []byte, lang int) string {
@@ -37,6 +37,18 @@ func MakeSentence(rng *plan.Rand, kind string, ent []byte, lang int) string {
 		return strings.Join(w, sep)
 	case "unknown":
 		w[rng.Intn(len(w))] = "zzzzqq"
+		return strings.Join(w, sep)
+	case "typo", "typo-last": // a word that is almost a list word (last rune dropped, or doubled)
+		i := len(w) - 1
+		if kind == "typo" {
+			i = rng.Intn(len(w))
+		}
+		rs := []rune(w[i])
+		if len(rs) > 2 && rng.Bool() {
+			w[i] = string(rs[:len(rs)-1])
+		} else {
+			w[i] = string(append(rs, rs[len(rs)-1]))
+		}
 		return strings.Join(w, sep)
 	case "short":
 		return strings.Join(w[:len(w)-1], sep)
